@@ -20,6 +20,7 @@
 #include <iterator>
 #include <list>
 #include <map>
+#include <new>
 #include <sstream>
 #include <vector>
 
@@ -33,6 +34,7 @@ struct alloc_log
   std::map<void *, std::size_t> live;
   std::string error;
   u64 allocations{0};
+  bool fail_next{false}; // fault injection: the next allocate() throws std::bad_alloc
 };
 alloc_log &alog()
 {
@@ -48,6 +50,11 @@ struct track_alloc
   track_alloc(track_alloc<U> const &) {}
   T *allocate(std::size_t n)
   {
+    if (alog().fail_next)
+    {
+      alog().fail_next = false;
+      throw std::bad_alloc();
+    }
     void *p = ::operator new(n * sizeof(T) + (n == 0 ? 1 : 0));
     alog().live[p] = n;
     ++alog().allocations;
@@ -116,7 +123,7 @@ struct machine
   using model = std::vector<T>;
 
   // flags for the non-trivial rule
-  bool inplace_insert{false}, realloc_insert{false}, aliased{false}, special_state{false};
+  bool inplace_insert{false}, realloc_insert{false}, aliased{false}, special_state{false}, alloc_failed{false};
 
   template <typename V>
   static std::string dump(V const &v)
@@ -205,6 +212,7 @@ struct machine
   {
     alog().live.clear();
     alog().error.clear();
+    alog().fail_next = false;
     {
       model m1, m2;
       bool ok = true;
@@ -288,8 +296,29 @@ struct machine
           std::size_t const n = static_cast<std::size_t>(x % (sz + 7));
           v1.resize(n, val); m1.resize(n, val); break;
         }
-        case 9: v1.reserve(static_cast<std::size_t>(x % 41)); m1.reserve(static_cast<std::size_t>(x % 41)); break;
-        case 10: v1.shrink_to_fit(); break;
+        // reserve / shrink_to_fit: one call in four runs with an allocator whose next allocation
+        // fails. std::vector's reserve/shrink_to_fit have no effect when the allocation throws, so
+        // the model is left alone; what the property demands is that the raw_vector still owns
+        // exactly the blocks it refers to (no double free, no use of a freed block later on).
+        case 9:
+        case 10:
+        {
+          bool const inject = y % 4 == 0;
+          alog().fail_next = inject;
+          try
+          {
+            if (op == 9) v1.reserve(static_cast<std::size_t>(x % 41));
+            else v1.shrink_to_fit();
+          }
+          catch (std::bad_alloc const &)
+          {
+            if (!inject) throw;
+            alloc_failed = true;
+          }
+          alog().fail_next = false;
+          if (op == 9) m1.reserve(static_cast<std::size_t>(x % 41));
+          break;
+        }
         case 11: v1.clear(); m1.clear(); break;
         case 12:
           if (x & 1U) v1.swap(v2); else swap(v1, v2);
@@ -418,6 +447,7 @@ void rv_case_t(Choices &c, std::size_t nframes)
   if (m.aliased) cls("aliased-insert");
   if (m.inplace_insert && m.realloc_insert) cls("in-place+reallocating");
   if (m.special_state) cls("empty-with-capacity-or-moved-from");
+  if (m.alloc_failed) cls("allocation-failure-injected-in-reserve-or-shrink");
 }
 void rv_case(Ints const &c)
 {
